@@ -332,3 +332,29 @@ fn vk_c09_exported_binding_seen_by_children() {
     assert!(n == (expect != 0) as u8 && tag == expect, "C09.export.children_see_the_innermost_exported_binding_that_has_a_value");
     std::mem::forget(env);
 }
+
+//@proof {'props': ['C09'], 'tier': 'quick', 'timeout': 900, 'uses': ['env_file'], 'bounds': 'global x (readonly? symbolic); a function scope, optionally with a readonly local x of its own (symbolic); then a new binding of x is created in a local scope (`local x=..`) or in a command scope (`x=.. cmd`) (symbolic)', 'desc': 'a readonly GLOBAL cannot be shadowed: creating a local or temporary binding of its name is refused and changes nothing (bash: "readonly variable"; the command of `R=2 cmd` is not run with R=2); a readonly local of a caller may be shadowed by a callee, as in bash; a name that is not readonly is shadowed as before'}
+#[kani::proof]
+#[kani::unwind(6)]
+fn vk_c09_readonly_global_cannot_be_shadowed() {
+    let mut env = ShellEnvironment::new();
+    let g_ro: bool = kani::any();
+    let r = env.add("x", var(1, g_ro, false), EnvironmentScope::Global); std::mem::forget(r);
+    env.push_scope(EnvironmentScope::Local);
+    let caller_has_ro_local: bool = kani::any();
+    if caller_has_ro_local && !g_ro { let r = env.add("x", var(2, true, false), EnvironmentScope::Local); std::mem::forget(r); }
+    let as_command: bool = kani::any();
+    let target = if as_command { EnvironmentScope::Command } else { EnvironmentScope::Local };
+    env.push_scope(target);
+    let before = seen(&env, "x");
+    let r = env.add("x", var(3, false, false), target);
+    kani::cover!(g_ro && as_command, "temporary_assignment_to_a_readonly_global");
+    kani::cover!(!g_ro && caller_has_ro_local && !as_command, "callee_shadows_a_callers_readonly_local");
+    if g_ro {
+        assert!(r.is_err(), "C09.readonly.shadowing_a_readonly_global_is_refused");
+        assert!(seen(&env, "x") == before, "C09.readonly.refused_shadowing_changes_nothing");
+    } else {
+        assert!(r.is_ok() && seen(&env, "x") == Some((target, 3)), "C09.scope.other_names_are_shadowed_as_before");
+    }
+    std::mem::forget(r); std::mem::forget(env);
+}
